@@ -153,3 +153,15 @@ case("C10", "ins-all-rows", "VIOLATION", [(V, "insertions_ = insertions[insertio
 case("C10", "ins-trim-exchanged", "VIOLATION", [(V, "\t\tif left == True:\n\t\t\tx = x[:, :, -X.shape[-1]:]\n\t\telse:\n\t\t\tx = x[:, :, :X.shape[-1]]", "\t\tif left == True:\n\t\t\tx = x[:, :, :X.shape[-1]]\n\t\telse:\n\t\t\tx = x[:, :, -X.shape[-1]:]")], "R-SIB")
 case("C10", "sub-no-clone", "VIOLATION", [(V, "X_var = torch.clone(X)", "X_var = X")], None, "variant_effect.substitution_effect")
 case("C10", "sub-position-column-mismatch", "VIOLATION", [(V, "X_var[substitutions[:, 0], :, substitutions[:, 1]] = 0", "X_var[substitutions[:, 0], :, substitutions[:, 2]] = 0")], "SUBST")
+
+# ------------------------------------------------------------------ C11
+FI = "tangermeme/tools/fimo.py"
+prefix("C11", "D5-prefix-fastmath", FI, "ab8c4e8", "R-FASTMATH", "tools.fimo.logaddexp2")
+prefix("C11", "D18-prefix-width1", FI, "78d77fb", "R-SCRATCH", "tools.fimo._pwm_to_mapping")
+case("C11", "fastmath-flagset-ninf", "VIOLATION", [(FI, "@numba.njit('float64(float64, float64)', cache=True)", "@numba.njit('float64(float64, float64)', fastmath={'ninf', 'contract'}, cache=True)")], "R-FASTMATH")
+case("C11", "fastmath-contract-only", "HOLDS", [(FI, "@numba.njit('float64(float64, float64)', cache=True)", "@numba.njit('float64(float64, float64)', fastmath={'contract'}, cache=True)")])
+case("C11", "fastmath-on-mapping", "VIOLATION", [(FI, "@numba.njit(cache=True)\ndef _pwm_to_mapping", "@numba.njit(fastmath=True, cache=True)\ndef _pwm_to_mapping")], "R-FASTMATH")
+case("C11", "mono-range-short", "VIOLATION", [(FI, "for i in range(len(logpdf) - 2, -1, -1):", "for i in range(len(logpdf) - 2, 0, -1):")], "R-MONO")
+case("C11", "mono-step-dropped-term", "VIOLATION", [(FI, "logpdf[i] = logaddexp2(logpdf[i], logpdf[i + 1])", "logpdf[i] = logaddexp2(logpdf[i], logpdf[i])")], "R-MONO")
+case("C11", "logadd-no-neginf-guard", "VIOLATION", [(FI, "\tif x == float(\"-inf\") and y == float(\"-inf\"):\n\t\treturn float(\"-inf\")\n", "")], "LOGADD")
+case("C11", "init-copy-spelling", "HOLDS", [(FI, "\tlogpdf[:] = old_logpdf\n", "\tlogpdf = old_logpdf.copy()\n")])
